@@ -95,11 +95,11 @@ type Config struct {
 	// NeverDone (with Background): which never-cancellable context: "" = context.Background() itself, "todo",
 	// "value" (WithValue of Background), "withoutcancel" (WithoutCancel of a cancellable parent that IS cancelled during
 	// the run), "own" (the caller's own type with a nil Done channel)
-	NeverDone  string    `json:"never_done,omitempty"`
-	ForeignCtx bool      `json:"foreign_ctx,omitempty"`    // the context is the caller's own implementation of context.Context, not one from package context
-	PassOver   bool      `json:"pass_over,omitempty"`      // judge the pass-over clause (single worker)
-	Crowd      int       `json:"crowd,omitempty"`          // > 1: that many concurrent Mine calls (auto flavour only)
-	MustFind   bool      `json:"must_find,omitempty"`      // generator guarantees a qualifying nonce is reachable quickly
+	NeverDone  string `json:"never_done,omitempty"`
+	ForeignCtx bool   `json:"foreign_ctx,omitempty"` // the context is the caller's own implementation of context.Context, not one from package context
+	PassOver   bool   `json:"pass_over,omitempty"`   // judge the pass-over clause (single worker)
+	Crowd      int    `json:"crowd,omitempty"`       // > 1: that many concurrent Mine calls (auto flavour only)
+	MustFind   bool   `json:"must_find,omitempty"`   // generator guarantees a qualifying nonce is reachable quickly
 	// SharedWorker (crowd runs): all concurrent calls go through ONE Worker object, the way an application keeps a
 	// single pow.Worker around; otherwise every call has a Worker of its own.
 	SharedWorker bool `json:"shared_worker,omitempty"`
